@@ -1,8 +1,9 @@
 #!/usr/bin/env python3
-"""gen_refactor_prompt.py <tag> <files, comma separated> : prompt for a sub-agent that writes a behaviour-PRESERVING
+"""gen_refactor_prompt.py <tag> <files, comma separated> [style hint] : prompt for a sub-agent that writes a behaviour-PRESERVING
 refactoring (used to look for false alarms of the checks). Worktree /tmp/rf-<tag>."""
 import sys
 tag, files = sys.argv[1], sys.argv[2]
+style = sys.argv[3] if len(sys.argv) > 3 else ""
 wt = "/tmp/rf-" + tag
 p = f"""You are helping to test a static verification tool by producing a realistic, behaviour-PRESERVING refactoring of a Go codebase (the tool must stay silent on it).
 
@@ -13,6 +14,7 @@ Every shell command needs this environment (no network is available, nothing can
 
 YOUR TASK: write ONE refactoring commit's worth of changes (roughly 30-120 changed lines) to these non-test files: {files}
 It must be the kind of clean-up a maintainer would really make: extract or inline local variables and small helper functions, rename locals and parameters, restructure control flow (early returns instead of nested else, inverted conditions, merged or split conditions, switch instead of if-chains), reorder statements that are independent of each other, replace a hand-written comparison by an equivalent library call or vice versa, hoist or sink computations where that is provably equivalent, tidy error wrapping without changing which errors are returned, etc. Mix several of these.
+{("STYLE for this commit: " + style) if style else ""}
 HARD REQUIREMENT: the observable behaviour must be EXACTLY the same for every input and every stored state, not only for the tested ones: same state writes in the same order, same coins moved, same events with the same contents, same errors returned in the same situations (the error text may differ only where you deliberately improve wording - avoid that), same panics / no new panics, same results of queries. Do not fix bugs, do not add validation, do not change numeric results, do not change which store keys are used. Keep all exported function and method names and signatures that other packages use. If you are not sure a transformation is exactly equivalent, do not make it.
   (a) the repository must still compile (`go build ./...`), and
   (b) the existing test suite must still pass: run `python3 /tmp/tools/cmp_baseline.py {wt}` (takes several minutes; it must print "now passing 550"). Afterwards delete leftovers: `rm -rf /tmp/chain4energy-e2e-testnet-test*`.
